@@ -316,12 +316,31 @@ def refs(tier="quick"):
     for trial in range(150 if tier == "quick" else 800):
         maxsize = rnd.choice([None, 0, 1, 2, 3])
         typed = rnd.choice([False, True])
-        ops = [(rnd.choice(["m", "c", "s", "info", "clear"]), rnd.randint(0, 1), rnd.choice([1, 1.0, 2, "1"])) for _ in range(rnd.randint(1, 20))]
+        # m/c/s: async def method, classmethod, staticmethod; p/o: the other flavours of the wrapped callable used as
+        # a method (a functools.partial of a coroutine function, an object whose call returns an awaitable)
+        ops = [(rnd.choice(["m", "c", "s", "p", "o", "info", "clear"]), rnd.randint(0, 1), rnd.choice([1, 1.0, 2, "1"])) for _ in range(rnd.randint(1, 20))]
 
         def build(deco, is_async):
             calls = []
             if is_async:
+                async def _p(self, x):
+                    calls.append(("p", x)); return ("p", x, len(calls))
+
+                class CO:
+                    async def __call__(self_, self, x):
+                        calls.append(("o", x)); return ("o", x, len(calls))
+            else:
+                def _p(self, x):
+                    calls.append(("p", x)); return ("p", x, len(calls))
+
+                class CO:
+                    def __call__(self_, self, x):
+                        calls.append(("o", x)); return ("o", x, len(calls))
+            if is_async:
                 class C:
+                    p = deco(_ft.partial(_p))
+                    o = deco(CO())
+
                     @deco
                     async def m(self, x):
                         calls.append(("m", x)); return ("m", id(self) % 7 * 0, x, len(calls))
@@ -335,6 +354,9 @@ def refs(tier="quick"):
                         calls.append(("s", x)); return ("s", x, len(calls))
             else:
                 class C:
+                    p = deco(_ft.partial(_p))
+                    o = deco(CO())
+
                     @deco
                     def m(self, x):
                         calls.append(("m", x)); return ("m", id(self) % 7 * 0, x, len(calls))
@@ -355,8 +377,11 @@ def refs(tier="quick"):
             out = []
             for op, i, x in ops:
                 o = objs[i]
-                if op in "mcs":
-                    out.append(await getattr(o, op)(x))
+                if op in "mcspo":
+                    try:
+                        out.append(await getattr(o, op)(x))
+                    except Exception as e:      # noqa: BLE001
+                        out.append(("raised", type(e).__name__))
                 elif op == "info":
                     out.append(tuple(CA.m.cache_info()))
                 else:
@@ -368,8 +393,11 @@ def refs(tier="quick"):
             out = []
             for op, i, x in ops:
                 o = objs[i]
-                if op in "mcs":
-                    out.append(getattr(o, op)(x))
+                if op in "mcspo":
+                    try:
+                        out.append(getattr(o, op)(x))
+                    except Exception as e:      # noqa: BLE001
+                        out.append(("raised", type(e).__name__))
                 elif op == "info":
                     out.append(tuple(CS.m.cache_info()))
                 else:
